@@ -141,6 +141,15 @@ def run(ctx):
     sp["tab-with-inline"] = list(gen.uniq(ti))
     tabs = list(gen.d_char(["a", " ", "\n", "-", ">", "\t", "1", ".", "["], 5))
     sp["tab-alphabet(9,5)"] = gen.sample(tabs, 3000, ctx.seed + 5) if ctx.tier == "quick" else tabs
+    # long runs inside every inline construct that is recognised by a regular expression or a scanning loop: a candidate
+    # that almost matches must be rejected in time (catastrophic backtracking shows here as a timeout)
+    stress = []
+    for n in (24, 40, 64):
+        a = "a" * n
+        stress += [f"<a@{a}_>", f"<a@{a}.{a}_>", f"<a.b@{a}>", f"<http://{a} x>", f"<ht{a}:/x y>", f"<{a}", f"<a {'b ' * (n // 2)}", f"<a {a}='", f"<!--{'-' * n}", f"<?{a}", f"<![CDATA[{a}",
+                   f"&{a};", f"&#{'1' * n};", f"&#x{'f' * n};", "[" * n, "[" * n + "]" * n, f"[{a}]({a} \"{a}", f"[{a}]: <{a}", f"[{a}]: /u '{a}", "*" * n + "a", "*a" * n, "_a_" * n, "`" * n + "a", "`a" * n,
+                   "\\" * n, f"![{'[' * n}", f"{'> ' * n}a", f"{'- ' * (n // 2)}a", f"www.{a}_", f"{a}@{a}_", f"http://{a}<"]
+    sp["inline-stress"] = list(gen.uniq(stress))
     docs, origin = [], []
     for name, ds in sp.items():
         for d in ds:
@@ -182,6 +191,6 @@ def run(ctx):
     return ctx.finish(
         level="other",
         extra_cov={"exhaustive": ctx.tier == "thorough", "explanation": "the loop around the handler is proved to terminate in O(N^2) handler calls under the requeue contract, and to number lines truly (obligations/discharged); the verdict for the property itself (the handler returns, without internal error, in polynomial work) comes from enumeration and measurement"},
-        rule="(1) all documents of <= 3 lines over a 15-template link-reference-definition vocabulary (+ 8 templates to 4 lines) and sampled repository documents under the loop monitor; (2) the C04 document spaces + delimiter runs + the LRD vocabulary + all strings of <= 5 characters over a 9-character alphabet with tab and '['; (3) 16 scalable families; quick = seed-selected subsets; non-trivial = a run in which lines were requeued; distinct by document",
+        rule="(1) all documents of <= 3 lines over a 15-template link-reference-definition vocabulary (+ 8 templates to 4 lines) and sampled repository documents under the loop monitor; (2) the C04 document spaces + delimiter runs + the LRD vocabulary + all strings of <= 5 characters over a 9-character alphabet with tab and '[' + 90 inline stress documents (runs of 24/40/64 characters inside every inline construct); (3) 16 scalable families; quick = seed-selected subsets; non-trivial = a run in which lines were requeued; distinct by document",
         assumptions=["'small polynomial' is read as exponent <= 3.3 on the measured families"],
     )
